@@ -211,8 +211,16 @@ def impl_1d(c):
     s = Spline1D(b)
     out['coeffs'] = []
     out['scale_ok'] = []
-    for d in c['data']:
+    for di, d in enumerate(c['data']):
         u = np.array([fl(t) for t in d.split()])
+        if di % 2 == 1:
+            # the caller's data may be a strided view (every second cell of a buffer); it must come back unchanged
+            u0 = u
+            u = np.full(2 * len(u0), np.nan)[::2]
+            u[...] = u0
+            it.compute_interpolant(u, s)
+            if not np.array_equal(u, u0):
+                out['input_modified'] = di
         it.compute_interpolant(u, s)
         cf = s.coeffs.copy()
         out['coeffs'].append(qs([ff(v) for v in cf]))
@@ -290,6 +298,14 @@ def impl_2d(c):
     for i1d in (it._interp1, it._interp2):
         out['kappa'] *= float(np.abs(np.linalg.inv(i1d._imat)).sum(axis=1).max())
     ug = np.array([[fl(t) for t in row.split()] for row in c['ug']])
+    if (ug.shape[0] + ug.shape[1]) % 2:
+        # the caller's data may be a view with other strides (Fortran order / a plane of a larger block); unchanged afterwards
+        ug0 = ug
+        ug = np.full((ug0.shape[0], 2, ug0.shape[1]), np.nan)[:, 1, :] if ug0.shape[0] % 2 else np.asfortranarray(ug0.copy())
+        ug[...] = ug0
+        it.compute_interpolant(ug, s)
+        if not np.array_equal(ug, ug0):
+            out['input_modified'] = True
     it.compute_interpolant(ug, s)
     out['coeffs'] = [qs([ff(v) for v in row]) for row in s.coeffs]
     x0, y0 = float(b1.greville[0]), float(b2.greville[-1])
@@ -541,6 +557,8 @@ def check_1d(chk, c, r, stats):
         if not wrap_ok:
             chk.violation('%s._solve_system_periodic:wrap:%s' % (SITE1, tag),
                           'periodic coefficients are not wrapped: c[n:n+p] != c[0:p] on %s' % tag, rep_j)
+        if j == 0 and r.get('input_modified') is not None:
+            chk.violation('%s.compute_interpolant:input-modified' % SITE1, 'compute_interpolant changed the caller\'s data array (held as a strided view) on %s' % tag, rep_j)
         if not r['scale_ok'][j]:
             chk.violation('%s.compute_interpolant:rescaling:%s' % (SITE1, tag),
                           'power-of-two rescaling of the data does not rescale the coefficients exactly on %s' % tag, rep_j)
@@ -678,6 +696,8 @@ def check_2d(chk, c, r, m, stats):
     if not wrap_ok:
         chk.violation('%s.compute_interpolant:wrap:%s' % (SITE2, tag), '2-D periodic coefficients are not wrapped consistently on %s' % tag,
                       dict(rep, observed=r['coeffs']))
+    if r.get('input_modified') is not None:
+        chk.violation('%s.compute_interpolant:input-modified' % SITE2, 'compute_interpolant changed the caller\'s data array (held as a view) on %s' % tag, rep)
     # the scalar entry point at one grid point
     x0, y0, v0 = [qparse(t) for t in r['scalar']]
     if abs(float(v0 - ug[0][n2 - 1])) > bound_r * 4:
